@@ -18,12 +18,39 @@ Fixpoint ideal_items (E : env) (pv : vars) (ps : pstate) (r : rule) (its : list 
   match its with
   | [] => (ps, inl r)
   | it :: rest =>
+      if is_post it then ideal_items E pv ps r rest else
       let st := item_step ps pv r it (src_vals E it) in
       let ps1 := is_upd st ps in
       match is_res st with
       | inr e => (ps1, inr e)
       | inl r' => ideal_items E pv (note_applied it (is_match st) ps1) r' rest
       end
+  end.
+
+(* query postprocessing on the pipeline's own per-rule fields; a `nest` item starts from an untouched nested pipeline
+   (no state, nothing applied) for every query *)
+Fixpoint ideal_post (ps : pstate) (r : rule) (q : str) (its : list item) : pstate * str :=
+  match its with
+  | [] => (ps, q)
+  | it :: rest =>
+      match i_tr it with
+      | TPost p =>
+          if eval_rcond ps r (i_cond it) then
+            let '(ps1, q1) :=
+              match p with
+              | PTop p0 => (ps, post0_apply (ps_state ps) p0 q)
+              | PNest l => let '(q', nids) := nest_run [] r q l [] in (add_ids nids ps, q')
+              end in
+            ideal_post (add_ids [i_id it] ps1) r q1 rest
+          else ideal_post ps r q rest
+      | _ => ideal_post ps r q rest
+      end
+  end.
+Fixpoint ideal_post_all (ps : pstate) (r : rule) (qs : list str) (its : list item) : pstate * list str :=
+  match qs with
+  | [] => (ps, [])
+  | q :: rest => let '(ps1, q1) := ideal_post ps r q its in
+                 let '(ps2, l) := ideal_post_all ps1 r rest its in (ps2, q1 :: l)
   end.
 
 (* a condition string means what the grammar says; a negated leaf uses the negated templates *)
@@ -52,8 +79,13 @@ Definition ideal_rule (E : env) (cls : N) (user : option N) (opts : list (str * 
   let '(ps, res) := ideal_items E (init_vars E cls user opts lfmt) ps0 r (pipe_defs E cls user lfmt) in
   match res with
   | inr e => (ps, SigmaErr e)
-  | inl r' => (ps, obind (omap (ideal_cond E (e_ne E cls) (r_dets r') (finish_query E cls (ps_state ps))) (r_conds r'))
-                         (fun l => Ok (map (finalize fmt (ps_state ps) r') l)))
+  | inl r' =>
+      match omap (ideal_cond E (e_ne E cls) (r_dets r') (finish_query E cls (ps_state ps))) (r_conds r') with
+      | Ok l => let '(ps2, l') := ideal_post_all ps r' (map (finalize fmt (ps_state ps) r') l) (pipe_defs E cls user lfmt) in
+                (ps2, Ok l')
+      | SigmaErr e => (ps, SigmaErr e)
+      | Crash e => (ps, Crash e)
+      end
   end.
 
 (* convert_rule(rule, fmt) *)
